@@ -177,7 +177,7 @@ func extractDefineMethod(content string) []MethodDefinition {
 
 	mrbDefineIdPattern :=
 		regexp.MustCompile(
-			`mrb_define_(class_)?method_id\s*\(\s*\w+\s*,\s*\w+\s*,\s*MRB_SYM(_Q)?\((\w+)\)\s*,\s*(\w+)\s*,\s*([^)]+\))`,
+			`mrb_define_(class_)?method_id\s*\(\s*\w+\s*,\s*\w+\s*,\s*MRB_SYM(_Q)?\((\w+)\)\s*,\s*(\w+)\s*,\s*([^;]+)\)\s*;`,
 		)
 
 	mrbIdMatches := mrbDefineIdPattern.FindAllStringSubmatch(content, -1)
@@ -202,7 +202,7 @@ func extractDefineMethod(content string) []MethodDefinition {
 
 	mrbDefinePattern :=
 		regexp.MustCompile(
-			`mrb_define_(class_)?method\s*\(\s*\w+\s*,\s*\w+\s*,\s*"([^"]+)"\s*,\s*(\w+)\s*,\s*([^)]+\))`,
+			`mrb_define_(class_)?method\s*\(\s*\w+\s*,\s*\w+\s*,\s*"([^"]+)"\s*,\s*(\w+)\s*,\s*([^;]+)\)\s*;`,
 		)
 
 	mrbMatches := mrbDefinePattern.FindAllStringSubmatch(content, -1)
@@ -430,48 +430,8 @@ func normalizeClassName(rawClassName string) string {
 func inferArguments(methodBody string, argumentsSpec string) []TiArgument {
 	arguments := []TiArgument{}
 
-	if strings.Contains(argumentsSpec, "MRB_ARGS_NONE()") {
-		return arguments
-	}
-
-	if strings.Contains(argumentsSpec, "MRB_ARGS_ANY()") {
-		arguments = append(arguments, TiArgument{
-			Type: []string{"Untyped"},
-			Key:  "*args",
-		})
-
-		return arguments
-	}
-
-	requiredArgumentsCount := 0
-	optionalArgumentsCount := 0
-	hasRestArguments := false
-	postArgumentsCount := 0
-	hasBlockArgument := false
-
-	requiredArgsPattern := regexp.MustCompile(`MRB_ARGS_REQ\((\d+)\)`)
-	if matches := requiredArgsPattern.FindStringSubmatch(argumentsSpec); matches != nil {
-		fmt.Sscanf(matches[1], "%d", &requiredArgumentsCount)
-	}
-
-	optionalArgsPattern := regexp.MustCompile(`MRB_ARGS_OPT\((\d+)\)`)
-	if matches := optionalArgsPattern.FindStringSubmatch(argumentsSpec); matches != nil {
-		fmt.Sscanf(matches[1], "%d", &optionalArgumentsCount)
-	}
-
-	if strings.Contains(argumentsSpec, "MRB_ARGS_REST()") {
-		hasRestArguments = true
-	}
-
-	postArgsPattern := regexp.MustCompile(`MRB_ARGS_POST\((\d+)\)`)
-	if matches := postArgsPattern.FindStringSubmatch(argumentsSpec); matches != nil {
-		fmt.Sscanf(matches[1], "%d", &postArgumentsCount)
-	}
-
-	if strings.Contains(argumentsSpec, "MRB_ARGS_BLOCK()") {
-		hasBlockArgument = true
-	}
-
+	// what the function really reads decides: the MRB_ARGS specification is
+	// only a hint to mruby and is often left at MRB_ARGS_ANY()
 	getArgsPattern := regexp.MustCompile(`mrb_get_args\s*\(\s*\w+\s*,\s*"([^"]+)"`)
 	if matches := getArgsPattern.FindStringSubmatch(methodBody); matches != nil {
 		formatString := matches[1]
@@ -545,6 +505,48 @@ func inferArguments(methodBody string, argumentsSpec string) []TiArgument {
 		return arguments
 	}
 
+	if strings.Contains(argumentsSpec, "MRB_ARGS_NONE()") {
+		return arguments
+	}
+
+	if strings.Contains(argumentsSpec, "MRB_ARGS_ANY()") {
+		arguments = append(arguments, TiArgument{
+			Type: []string{"Untyped"},
+			Key:  "*args",
+		})
+
+		return arguments
+	}
+
+	requiredArgumentsCount := 0
+	optionalArgumentsCount := 0
+	hasRestArguments := false
+	postArgumentsCount := 0
+	hasBlockArgument := false
+
+	requiredArgsPattern := regexp.MustCompile(`MRB_ARGS_REQ\((\d+)\)`)
+	if matches := requiredArgsPattern.FindStringSubmatch(argumentsSpec); matches != nil {
+		fmt.Sscanf(matches[1], "%d", &requiredArgumentsCount)
+	}
+
+	optionalArgsPattern := regexp.MustCompile(`MRB_ARGS_OPT\((\d+)\)`)
+	if matches := optionalArgsPattern.FindStringSubmatch(argumentsSpec); matches != nil {
+		fmt.Sscanf(matches[1], "%d", &optionalArgumentsCount)
+	}
+
+	if strings.Contains(argumentsSpec, "MRB_ARGS_REST()") {
+		hasRestArguments = true
+	}
+
+	postArgsPattern := regexp.MustCompile(`MRB_ARGS_POST\((\d+)\)`)
+	if matches := postArgsPattern.FindStringSubmatch(argumentsSpec); matches != nil {
+		fmt.Sscanf(matches[1], "%d", &postArgumentsCount)
+	}
+
+	if strings.Contains(argumentsSpec, "MRB_ARGS_BLOCK()") {
+		hasBlockArgument = true
+	}
+
 	hasNoArgumentSpec :=
 		requiredArgumentsCount == 0 &&
 			optionalArgumentsCount == 0 &&
@@ -581,7 +583,7 @@ func inferArguments(methodBody string, argumentsSpec string) []TiArgument {
 		for _, matchGroups := range argcCheckMatches {
 			argcValue := 0
 			fmt.Sscanf(matchGroups[1], "%d", &argcValue)
-			if argcValue > minimumRequiredArgc {
+			if argcValue > 0 && (minimumRequiredArgc == 0 || argcValue < minimumRequiredArgc) {
 				minimumRequiredArgc = argcValue
 			}
 		}
